@@ -13,8 +13,14 @@ MutOf(c) == IF c.lab.fam = "one" /\ c.lab.t \in MutTerms(c.lab.g)
                  IN IF o = c.v.p[c.lab.t] THEN {} ELSE {Pr(c.v, With(c.v, c.lab.t, o)), Pr(With(c.v, c.lab.t, o), c.v)}
             ELSE {}
 Mut == UNION {MutOf(c) : c \in Vals}
-IdVariants(id) == {id \o "x", "https://other.example.net/" \o "o/1", id \o "?page=2"}      \* path, host, query
 BaseVals == {BaseV(g, 5) : g \in ObjectGoTypes} \cup {Embedded(g, 6) : g \in ObjectGoTypes}
+IdTail(id) == SubSeq(id, Len(Base) + 1, Len(id))
+IdVariants(id) == {id \o "x", "https://other.example.net/" \o "o/1", id \o "?page=2",          \* path, host, query
+                   "https://example.com:8443/" \o IdTail(id), "https://sub.example.com/" \o IdTail(id)}   \* the host includes the port; a sub-domain is another host
+Without(v, t) == [v EXCEPT !.p = Restrict(v.p, DOMAIN v.p \ {t})]
+\* two explicit ports
+PortPairs == UNION {{Pr(With(v, "id", Str("https://example.com:8443/" \o IdTail(v.p.id.s))), With(v, "id", Str("https://example.com:9443/" \o IdTail(v.p.id.s)))),
+                     Pr(With(v, "id", Str("https://example.com:9443/" \o IdTail(v.p.id.s))), With(v, "id", Str("https://example.com:8443/" \o IdTail(v.p.id.s))))} : v \in BaseVals}
 \* ids that differ only in the values of a repeated query parameter
 QueryPairs == UNION {{Pr(With(v, "id", Str(v.p.id.s \o "?tag=a&tag=a")), With(v, "id", Str(v.p.id.s \o "?tag=a&tag=b"))),
                       Pr(With(v, "id", Str(v.p.id.s \o "?tag=a&tag=b")), With(v, "id", Str(v.p.id.s \o "?tag=a&tag=a")))} : v \in BaseVals}
@@ -26,16 +32,18 @@ IdDiff == UNION {UNION {{Pr(v, With(v, "id", Str(i2))), Pr(With(v, "id", Str(i2)
 OtherType(g) == CASE g = "Object" -> {"Article", "Video"} [] g = "Actor" -> {"Group", "Service"} [] g = "Activity" -> {"Like", "Delete"}
                   [] g = "IntransitiveActivity" -> {"Travel"} [] OTHER -> {}
 TypeDiff == UNION {UNION {{Pr(v, With(v, "type", Str(t2))), Pr(With(v, "type", Str(t2)), v)} : t2 \in OtherType(v.g)} : v \in BaseVals}
+FullVals == {c.v : c \in Full(FALSE)}
+\* a typed value against the same value without a type
+TypeLess == UNION {{Pr(v, Without(v, "type")), Pr(Without(v, "type"), v)} : v \in BaseVals \cup {w \in FullVals : w.g # "Link"}}
 NilLikes == {NilItem, Iri(""), Iri("-"), [k |-> "nil", as |-> "Object"], [k |-> "nil", as |-> "Activity"], [k |-> "list", e |-> <<>>, nilslice |-> TRUE]}
 NonNils == {I1, Note1, Person1, Untyped, Link1, ListOf(<<I1>>), BaseV("Activity", 5), BaseV("Collection", 5)}
 NilFam == {Pr(a, b) : a \in NilLikes, b \in NilLikes} \cup {Pr(a, b) : a \in NilLikes, b \in NonNils} \cup {Pr(b, a) : a \in NilLikes, b \in NonNils}
 \* the same laws on values with EVERY property set (a later comparison must not overwrite an earlier verdict)
-FullVals == {c.v : c \in Full(FALSE)}
 FullId == UNION {{Pr(v, With(v, "id", Str(v.p.id.s \o "/other"))), Pr(With(v, "id", Str(v.p.id.s \o "/other")), v)} : v \in {w \in FullVals : w.g # "Link"}}
 FullMut == UNION {UNION {LET k == Kind(v.g, t) o == OtherVal(k, v.p[t]) IN
                          IF o = v.p[t] THEN {} ELSE {Pr(v, With(v, t, o)), Pr(With(v, t, o), v)}
                          : t \in (MutTerms(v.g) \ {"id", "type"}) \cap DOMAIN v.p} : v \in FullVals}
-AllPairs == FullId \cup FullMut \cup Refl \cup OddRefl \cup QueryPairs \cup Mut \cup IdDiff \cup TypeDiff \cup NilFam
+AllPairs == PortPairs \cup TypeLess \cup FullId \cup FullMut \cup Refl \cup OddRefl \cup QueryPairs \cup Mut \cup IdDiff \cup TypeDiff \cup NilFam
 GenInit == x = NilItem /\ y = NilItem /\ res = FALSE /\ phase = "gen"
 GenNext == FALSE /\ UNCHANGED vars
 ASSUME ndJsonSerialize("c09_pairs.ndjson", SetToSeq(AllPairs))
